@@ -19,6 +19,62 @@ CLAIMED = {
     ),
 }
 
+CLAIMED["C04"] = dict(
+    text="Proof (Lean 4), for every machine set, every oracle (all seeds and every value a sampler can return, NaN/inf included) and every history "
+         "with arbitrary batches: returned machine ids strictly increasing and existing (so distinct, at most one per machine, none without machines), "
+         "each action is the projection (kind, bypass, replace, timer) of an action of a state of the machine it names, all timeouts/durations <= 24 h, "
+         "END is absorbing across calls. The same decidable predicates run as a monitor on the implementation's traces; correspondence on actions.",
+    ref="5 (C04)",
+    technique="Lean 4 invariant proof over primitive steps of the framework model (Step/Reach/Run engine) + differential correspondence + spec monitor on implementation traces",
+)
+
+CLAIMED["C02"] = dict(
+    text="Proof (Lean 4), for every machine set, fractions, oracle, every prior history (single events or batches) and every single-event call: a returned "
+         "SendPadding for machine m implies, with packet counts recomputed from the event history alone, budget not exhausted or both the machine's and the "
+         "framework's padding fraction below their limits (fraction over zero packets counts as below). Rests on a proved refinement: the model's accounting "
+         "fields are a pure function of the reported events. The exact-rational form of the same predicate runs as a monitor on the implementation's traces.",
+    ref="5 (C02)",
+    technique="Lean 4: gate invariant over primitive steps + accounting refinement theorem; differential correspondence; exact-rational spec monitor on implementation traces",
+)
+
+CLAIMED["C03"] = dict(
+    text="Proof (Lean 4), for every machine set, fractions, oracle, every prior history with arbitrary (also backwards) clock values and every single-event call: "
+         "a returned BlockOutgoing for machine m implies replace-while-active, or blocked time (recomputed from the BlockingBegin/End reports and timestamps alone, "
+         "ongoing block counted to now, negative spans as 0) below allowed_blocked_microsec, or the blocked share below both the machine's and the framework's fraction. "
+         "Rests on the proved accounting refinement. The same decidable predicate runs as a monitor on the implementation's traces under a virtual clock.",
+    ref="5 (C03)",
+    technique="Lean 4: gate invariant over primitive steps + accounting refinement theorem; differential correspondence under a virtual clock; spec monitor on implementation traces",
+)
+
+CLAIMED["C20"] = dict(
+    text="Proof (Lean 4) on a byte-level model of the C API whose struct layouts are regenerated from maybenot.h and lib.rs on every run: decode(encode(convert a)) = view a field for field "
+         "(kind, machine, bypass, replace, timer, seconds/nanoseconds split), the written count equals the number of framework actions and is <= num_machines (discharged from C04), nothing beyond "
+         "index count is written, event conversion is exact and injective, null pointers / bad arguments give the specified result codes; header/Rust layout consistency is a proof obligation. "
+         "The five extern \"C\" functions are driven through the rlib with canaries around the output buffer and compared byte-wise with the model and with the Rust framework.",
+    ref="7 (C20)",
+    technique="Lean 4 theorems on a header-derived C layout model + translator (maybenot.h, lib.rs) + differential correspondence on raw output bytes with canaries",
+    note="Trusted in addition: x86-64 SysV layout rules as modelled in Ffi.lean; real memory safety of the unsafe writes beyond the byte-level contract, OS RNG and Instant::now() are outside the model; machines are deterministic so the API's OS-seeded RNG cannot matter.",
+)
+
+CLAIMED["C01"] = dict(
+    text="Proof (Lean 4), for every validated machine set, fractions, oracle and history with arbitrary batches, unknown/huge ids and arbitrary (also backwards) clocks: "
+         "no index is ever out of range, the transition recursion needs at most 6 of its 8 fuel units (CounterZero guard), every reached state is valid; the only fault the "
+         "model can raise is the checked Duration addition of the blocking accounting, shown reachable by a kernel-evaluated witness that panics the real code too (known finding F6). "
+         "Monitor on the implementation: no panic, transition steps per call <= 6(events+1)(machines+1). The work bound itself is checked by the monitor, not yet by a theorem.",
+    ref="5 (C01)",
+    technique="Lean 4: safety induction over the mutually recursive transition/update_counter with a fuel measure + bounded call-level walker; differential correspondence incl. panic class; monitor for the work bound",
+)
+
+CLAIMED["C11"] = dict(
+    text="Proof (Lean 4): bincode round trip dec(enc m ++ r) = (m, r) for every representable machine (floats as raw bits, NaN payloads survive), base64 round trip, "
+         "fromStr(serialize m) = m and identical re-serialisation (hence name) for every valid machine whose encoding fits 1 MiB under the stated zlib contract (a hypothesis, checked "
+         "against the real flate2 path on every run), fromStr never panics and only yields validated machines for every string and every zlib behaviour, the legacy v1 parser never "
+         "indexes out of bounds. Correspondence on valid, hostile, v1 and bomb streams; peak allocation on bombs is measured as supporting evidence only.",
+    ref="6 (C11)",
+    technique="Lean 4 structural round-trip proofs over a bincode/base64/v1-parser model with zlib as a parameter + differential correspondence (valid, mutated, bomb strings)",
+    note="Trusted in addition: zlib (flate2/miniz_oxide) is a parameter with a stated contract, validated on every run; heap use is outside the model (measured only); bincode/serde derive output is modelled and validated on every generated machine.",
+)
+
 PENDING = {}
 
 ALL = [f"C{i:02d}" for i in range(1, 21)]
